@@ -245,6 +245,9 @@ func propItems(w *World, prop string, cfg PropConfig) ([]workItem, error) {
 			}
 			if hit {
 				matched = true
+				if w.Funcs[key].OnceArg && w.Funcs[key].Spec == nil {
+					continue // checked where it runs: inline in the function that passes it to Once.Do
+				}
 				if !seen[key] {
 					seen[key] = true
 					items = append(items, workItem{fi: w.Funcs[key], sweep: true})
@@ -654,7 +657,7 @@ func cmdFunc(o options, mode string, args []string) int {
 		obre = regexp.MustCompile(args[1])
 	}
 	for _, key := range sortedKeys(w.Funcs) {
-		if !re.MatchString(key) {
+		if !re.MatchString(key) || (w.Funcs[key].OnceArg && w.Funcs[key].Spec == nil) {
 			continue
 		}
 		r := w.verifyFunc(w.Funcs[key], nil)
